@@ -3,7 +3,7 @@
 import json, os, sys
 ROOT = os.path.dirname(os.path.dirname(os.path.abspath(__file__)))
 sys.path.insert(0, ROOT)
-from checks_config import PROPS, HOOK_COMMITS, NOT_APPLICABLE
+from checks_config import PROPS, HOOK_COMMITS, NOT_APPLICABLE, ADDITIONS
 
 props = [json.loads(l) for l in open(os.path.join(ROOT, "properties.jsonl"))]
 claimed = sorted(k for k, v in PROPS.items() if "manifest" in v)
@@ -34,7 +34,7 @@ for pid in claimed:
         "evidence_file": "/verif/evidence/%s.json" % pid,
         "replay_cmd_template": "./check %s --replay {path}" % pid,
         "engine": "harness",
-        "level_claimed": {"category": PROPS[pid]["level"], "text": mf["text"], "design_ref": "DESIGN.md §6 " + pid},
+        "level_claimed": {"category": PROPS[pid]["level"], "text": mf["text"] + (" " + ADDITIONS[pid] if pid in ADDITIONS else ""), "design_ref": "DESIGN.md §6 " + pid},
         "level_note": mf["note"],
         "technique": mf["technique"],
     })
